@@ -11,9 +11,9 @@ import (
 )
 
 type oblResult struct {
-	Obl *Obligation
-	Res solverResult
-	OK  bool
+	Obl          *Obligation
+	Res          solverResult
+	OK           bool
 	Inconclusive bool
 }
 
